@@ -62,7 +62,8 @@ impl RenderHtml for &str {
         _extra_attrs: Vec<AnyAttribute>,
     ) {
         // add a comment node to separate from previous sibling, if any
-        if matches!(position, Position::NextChildAfterText) {
+        // (not inside script/style/textarea/noscript, where `<!>` would be literal text)
+        if escape && matches!(position, Position::NextChildAfterText) {
             buf.push_str("<!>")
         }
         if self.is_empty() && escape {
